@@ -58,7 +58,7 @@ type WorkerArgs struct {
 	ReplayDir string
 	Tree      string
 	MaxViol   int
-	KnownKeys map[string]bool // open known findings: counted, never minimised, never end the batch
+	KnownKeys map[string]bool                // open known findings: counted, never minimised, never end the batch
 	ExecWrap  func(p Prop, c *Case) *Outcome // engine-specific wrapper (E3 bubble); nil = p.Exec
 }
 
